@@ -19,7 +19,7 @@ LEVEL = "model_checking"
 def run(ctx):
     thorough = ctx.tier == "thorough"
     racecommon.model(ctx, thorough, None)
-    feats = [(), ("parking_lot",)]
+    feats = [(), ("parking_lot",), ("std-hasher",)]
     racecommon.traces(ctx, thorough, feats)
     # sequential front-ends: the same handle through AssetCache / AnyCache / LocalAssetCache
     rep = worlds.parse_report(vlib.run_bin("amv", ["c01-fronts", ctx.seed]))
@@ -38,7 +38,7 @@ def run(ctx):
                        "all non-trivial (every run has forced simultaneous misses and lost insertion races, counted in race_runs)")
     ctx.assumptions += ["real schedules are those the OS produced plus gate-forced simultaneous misses; all schedules are covered only in the model (3 threads)",
                         "handle identity is the address of the returned &Handle; validity is observed by reading the value token through it",
-                        "the ahash/std-hasher alternative is not rebuilt (ahash is a default feature of the pinned crate and the harness keeps defaults)"]
+                        "three builds of the harness: default (ahash, std locks), parking_lot, std-hasher"]
 
 
 def replay(ctx, path):
